@@ -298,6 +298,12 @@ gensalt_sunmd5_rn (unsigned long count,
   count += ((unsigned long)rbytes[0]) << 8;
   count += ((unsigned long)rbytes[1]) << 0;
 
+  /* crypt_sunmd5_rn adds its 4096 basic rounds to this number in
+     32-bit arithmetic; keep the sum representable, or the hash would
+     be computed with a few thousand rounds instead of billions.  */
+  if (count > SUNMD5_MAX_ROUNDS - 4096)
+    count = SUNMD5_MAX_ROUNDS - 4096;
+
   assert (count != 0);
 
   size_t written = (size_t) snprintf ((char *)output, o_size,
